@@ -188,9 +188,9 @@ def tcase_term(cfg, r):
 
 def run(chk: Check) -> int:
     chk.prove(["theories/Props/C12.vo", "theories/Run/L1DScaleRun.vo"], THEOREMS)
-    ncases = 260 if chk.quick else 3000
+    ncases = 200 if chk.quick else 3000
     maxlen = 26 if chk.quick else 90
-    ncoq = 260 if chk.quick else 500       # twin pairs also run through the Coq model (the terms are large)
+    ncoq = 200 if chk.quick else 500       # twin pairs also run through the Coq model (the terms are large)
     cases, metas = [], []
     hist = {}
     stats = {"rescale_sweeps": 0, "interior_ask_with_pending": 0, "batch": 0, "vector": 0, "nn1": 0,
